@@ -1,5 +1,7 @@
 // C06 object: four variables (released by destruct2), call_out / add_action callbacks that capture values.
 // variable order matters to the harness: x0..x3 are variables 0..3
+inherit "/c06/base";      // program_t.ref of the base program: its blueprint + the inherit table of this program
+
 mixed x0, x1, x2, x3;
 
 void set_oid (string s) { }
@@ -30,11 +32,15 @@ void cbs1 (mixed a, mixed b) { x1 = a; }
 void cbs2 (mixed a, mixed b) { x2 = a; }
 void cbs3 (mixed a, mixed b) { x3 = a; }
 
+// cbe raises an error (its arguments are popped by the error recovery of call_out()), cbd destructs its own object
+void cbe (mixed a, mixed b) { error ("c06 call_out callback\n"); }
+void cbd (mixed a, mixed b) { destruct (this_object ()); }
+
 // function pointer with one bound argument
 mixed mkfun (mixed a) { return (: cb, a :); }
 
 int docall (int k, int st, mixed a, mixed b) {
-  return call_out (st ? "cbs" + k : "cb", 1, a, b);
+  return call_out (st == 1 ? "cbs" + k : st == 2 ? "cbe" : st == 3 ? "cbd" : "cb", 1, a, b);
 }
 
 int act (string arg, mixed a, mixed b) { return 1; }
@@ -43,7 +49,10 @@ void rmact (int k) { remove_action ("act", "verb" + k); }
 
 // input_to callback with two carry-over arguments (the harness sets command_giver to the interactive user)
 void icb (string str, mixed a, mixed b) { }
-void doinput (mixed a, mixed b) { input_to ("icb", 0, a, b); }
+// icb2 installs a new input_to from inside the callback (the driver has freed the old sentence before the call)
+void icb2 (string str, mixed a, mixed b) { input_to ("icb", 0, b, a); }
+void doinput2 (mixed a, mixed b) { input_to ("icb2", 0, a, b); }
+void doinput (mixed a, mixed b, int gc) { if (gc) get_char ("icb", 0, a, b); else input_to ("icb", 0, a, b); }
 
 // remove_call_out by function name / all call_outs of this object
 void rmbyname (int k) { remove_call_out ("cbs" + k); }
